@@ -54,7 +54,7 @@ def _replay(binp, inp, out):
     return vlib.load_result(out)
 
 
-def _judge(v, wd, results, tag="payload"):
+def _judge(v, wd, results, tag="payload", single=False):
     """Turns the mismatches of the replays into violations / known findings / drift notes."""
     open_kf = {f["key"]: f for f in vlib.known_findings(PROP)}
     counters = {}
@@ -98,7 +98,7 @@ def _judge(v, wd, results, tag="payload"):
             v.known_finding("F6", "F6 %s; %d of %d inputs of the class panic in this run, smallest: widths %s (%d bytes, %d runes), n=%d: %s"
                             % (F6_TEXT, counters["f6_panics"], counters["f6_panics"] + counters.get("f6_class_no_panic", 0),
                                small.get("widths"), small.get("bytes", 0), small.get("runes", 0), small.get("n", 0), small.get("panic")))
-        else:
+        elif not single:
             v.notes.append("KNOWN-FINDING-NOT-REPRODUCED property=%s F6: TruncateInBytes did not panic on any of the %d inputs of "
                            "the class (judged like any other input)" % (PROP, counters.get("f6_class_no_panic", 0)))
     if "C20-EMPTYANN" in open_kf:
@@ -106,7 +106,7 @@ def _judge(v, wd, results, tag="payload"):
             v.known_finding("C20-EMPTYANN", "C20-EMPTYANN %s; %d payloads of %d in the class" %
                             (EMPTYANN_TEXT, counters["mismatch_EMPTYANN"],
                              counters["mismatch_EMPTYANN"] + counters.get("emptyann_class_conforming", 0)))
-        else:
+        elif not single:
             v.notes.append("KNOWN-FINDING-NOT-REPRODUCED property=%s C20-EMPTYANN: commonAnnotations was the intersection in all %d "
                            "payloads of the class" % (PROP, counters.get("emptyann_class_conforming", 0)))
     return counters, nviol
@@ -184,13 +184,15 @@ def run_payload(pid, tier, v):
         "rule": "payload: one case = one batch (alerts, group labels, send_resolved, max_alerts) or one string with its limits, "
                 "distinct as printed by TLC; non-trivial batch = at least two listed alerts that differ and either a non-empty "
                 "common set or mixed statuses; non-trivial string = at least one limit that truncates",
-        "bounds": ("payload MC: %d cases (key/value sequences <= 4 over 2 names x {\"\",x,y}; batches <= 3 over 27 alerts x send_resolved x "
-                   "max_alerts; width sequences <= %s and uniform strings <= 16 runes x every limit 0..bytes+2). "
-                   "Gen exhaustive: %d cases (batches <= %s over %s alerts x send_resolved x max_alerts 0..%s; sizes 1..%s x max_alerts; "
+        "bounds": ("payload MC (%s): %d cases: sequences of <= 4 key/value sets, batches of <= 3 alerts x send_resolved x max_alerts, "
+                   "all width sequences of <= %s code points and uniform strings x every limit 0..bytes+2. "
+                   "Gen exhaustive (%s): %d cases (batches <= %s over %s alerts x send_resolved x max_alerts 0..%s; sizes 1..%s x max_alerts; "
                    "all width sequences <= %s, uniform strings up to %s runes, every limit). "
-                   "Random (seed %d): %d cases (batches of 1-4 alerts over 3 label names x 2 values, 2 annotation names x {\"\",x,y}, "
-                   "3 end kinds, max_alerts 0..5; strings of 6-48 code points)" %
-                   (mc.distinct, "7" if thorough else "6", g1.behaviours, "3" if thorough else "2", "27" if thorough else "48",
+                   "Random (Sim_Delivery.cfg, seed %d): %d cases (batches of 1-4 alerts over 3 label names x 2 values, 2 annotation names x {\"\",x,y}, "
+                   "3 end kinds, max_alerts 0..5; strings of 6-48 code points, ~40 limits each)" %
+                   ("MC_Delivery_thorough.cfg" if thorough else "MC_Delivery.cfg", mc.distinct, "7" if thorough else "6",
+                    "Gen_Delivery_thorough.cfg" if thorough else "Gen_Delivery.cfg", g1.behaviours,
+                    "3" if thorough else "2", "27" if thorough else "48",
                     "3" if thorough else "2", "8" if thorough else "6", "7" if thorough else "5", "64" if thorough else "44", seed, nsim)),
         "samples": samples,
         "payload_counters": counters,
@@ -218,4 +220,4 @@ def replay(path, v):
     with open(inp, "w") as f:
         f.write(json.dumps(data) + "\n")
     r = _replay(binp, inp, os.path.join(wd, "payload_replay_out.json"))
-    _judge(v, wd, [r], tag="payload_single")
+    _judge(v, wd, [r], tag="payload_single", single=True)
